@@ -798,6 +798,7 @@ def applyUpdate : Nat → Path → Val → Option Path → FM (Option Report)
         let kvs ← match upd with
           | .dict kvs => pure kvs
           | .list [] => pure []
+          | .str s => if s = "" then pure [] else throw .valueError
           | _ => throw .typeError
         let r ← foldFM (applyPart (applyUpdate fuel) fuel here kvs ps) {} Generated.structuralOrder
         pure (some r)
